@@ -243,6 +243,11 @@ def cases(rnd: random.Random, thorough: bool) -> list[Case]:
     A(Case("put_bind", (" I", "30:111111", "22F1", "32:222222"), {}, True, {"phase": "confirm"}))
     A(Case("put_bind", ("RQ", "30:111111", "22F1"), {}, False, {}))
     A(Case("put_bind", (" W", "30:111111", "22F1"), {}, False, {}))
+    for v in (" W", " I", "RP", "RQ"):
+        for dst in (None, "30:111111", "63:262142", "32:222222"):
+            for codes in ("22F1", ["22F1", "22F3"], None, []):
+                for kw in ({}, {"idx": "00"}, {"idx": "21"}):
+                    A(Case("put_bind", (v, "30:111111", codes, dst), dict(kw), False, {}))
     return out
 
 
@@ -289,6 +294,10 @@ def run(chk: Check) -> None:
         key = f"{cmd.verb}|{cmd.code}"
         if key not in keys.get(c.name, ()):
             chk.violation(f"{c.name}:wrong_key", f"{c.label()} builds {key} but is registered under {sorted(keys.get(c.name, []))}: {cmd}",
+                          {"op": "build", "constructor": c.name, "args": repr(c.args), "kwargs": repr(c.kwargs), "frame": str(cmd)})
+        if c.name == "put_bind" and str(cmd.verb) != str(c.args[0]):
+            # the one constructor registered under two verbs takes the verb as an argument: what it builds is of that verb
+            chk.violation(f"put_bind:wrong_verb:{c.args[0].strip()}->{str(cmd.verb).strip()}", f"{c.label()} was asked for verb {c.args[0]!r} and builds {str(cmd)!r}",
                           {"op": "build", "constructor": c.name, "args": repr(c.args), "kwargs": repr(c.kwargs), "frame": str(cmd)})
         try:
             msg = Message._from_cmd(cmd)
